@@ -1083,6 +1083,8 @@ fn run_case(idx: u64, g: &Gen, hist: &mut Hist) -> CaseResult {
                         }
                         let (d4, dst4) = (d.clone(), *dst);
                         let other = if h & 0x100 == 0 { (pid, [0u8, 1]) } else { (*b"discv5", ver) };
+                        // (the drawn id can be "discv5" itself: the other identity must differ in something)
+                        let other = if other == (pid, ver) { (pid, [0u8, 1]) } else { other };
                         if let Ok(false) = catch(move || discv5::verif::packet::packet_foreign_identity_rejected(&d4, &dst4, (pid, ver), other)) {
                             failures.push(("C05: a datagram with a foreign protocol id or version was accepted".into(), si));
                         }
